@@ -41,6 +41,9 @@ def run(ctx):
     from .. import rules_lexer as RL
     ctx.rule('R5.6', 'the lexer sees the whole input at once: regions cannot straddle a chunk boundary', floor=3)
     RL.check_whole_text(ctx, 'R5.6')
+    # every rule above reads the lexer through its tables; that the scan loop applies them faithfully is decided by interpretation
+    ctx.rule('R5.S', 'Lexer.get_tokens interpreted on short texts agrees token by token with the rule-table model the other rules use', floor=1)
+    RL.check_scan_semantics(ctx, 'R5.S')
     # R5.1 is a statement about the rule table; it speaks for the scan only if the lexer that scans has that table installed
     ctx.rule('R5.9', 'the lexer that scans the script has the complete rule table: the default instance is published only when initialised', floor=5)
     RL.check_singleton_lock(ctx, 'R5.9')
